@@ -720,4 +720,4 @@ impl_cache_cleaner!(CacheCleaner, CacheProcessor, Item);
 
 #[cfg(all(transparencies_stretto_verif, any(kani, test)))]
 #[path = "/verif/harness/h_cache_sync.rs"]
-mod verif_harness;
+pub(crate) mod verif_harness;
